@@ -255,6 +255,20 @@ def rule_text(ctx, mod, ci):
     got = {k: o.attrs.get(k) for k in ("name", "octave", "velocity", "channel")}
     ok = len(paths) == 1 and paths[0].kind == "return" and got["name"] is src_name and got["octave"] == 6 and got["velocity"] == 99 and got["channel"] == 7
     ctx.check(ok, R, "copy", init.where(), "Note(other_note)", "copy has %s (%s)" % (got, [(p.kind, p.value) for p in paths]))
+    # ... also when the source's octave, velocity and channel are 0 (which are values, not "nothing given")
+    for o_, v_, c_ in ((0, 0, 0), (0, 64, 1), (9, 127, 15)):
+        src0 = note_obj(ci, name="B#", octave=o_, velocity=v_, channel=c_)
+        holder0 = {}
+
+        def mk0(src0=src0, holder0=holder0):
+            holder0["o"] = note_obj(ci)
+            return [holder0["o"], src0]
+        paths = paths_of(ctx.repo, init, mk0)
+        o0 = holder0["o"]
+        got0 = {k: o0.attrs.get(k) for k in ("name", "octave", "velocity", "channel")}
+        ok = len(paths) == 1 and paths[0].kind == "return" and got0 == {"name": "B#", "octave": o_, "velocity": v_, "channel": c_}
+        ctx.check(ok, R, "copy[octave %d, velocity %d, channel %d]" % (o_, v_, c_), init.where(), "Note(<B#-%d, velocity %d, channel %d>)" % (o_, v_, c_),
+                  "copy has %s (%s)" % (got0, [(p.kind, p.value) for p in paths]))
     # integer construction
     paths = paths_of(ctx.repo, init, lambda: [note_obj(ci), 61])
     ctx.check(len(paths) == 1 and paths[0].kind == "return", R, "init(int)", init.where(), "Note(61)", "Note(int): %s" % [(p.kind, p.value) for p in paths])
